@@ -1,4 +1,5 @@
 import Pushr.Vector
+import Pushr.Sem
 /-! Instruction functions the crate ships but does not register (`load_vector_instructions` has their two lines
 commented out): `int_vector_multiply` (README: INTVECTOR.*) and `int_vector_divide` (INTVECTOR./). A program can reach
 them only after the host registered them with `InstructionSet::add`, which the README documents; they are modelled
@@ -17,5 +18,9 @@ def divOverlapI (second top : List Int32) (off : Int) : Option (List Int32) :=
 def semIntVecMul (s : State) : State := elementwise Lens.ivec s fun a b off => some (overlapLoop (· * ·) a b off)
 /-- `int_vector_divide` -/
 def semIntVecDiv (s : State) : State := elementwise Lens.ivec s divOverlapI
+
+/-- `input_flush` (doc comment: INPUT.FLUSH, "Empties the INPUT stack"): a third public instruction function that
+`load_io_instructions` does not register -/
+def semInputFlush (s : State) : State := { s with input := s.input.flush }
 
 end Pushr
